@@ -24,3 +24,16 @@ def property_fails(prop, lines, impl, model):
         if x != y:
             return "%s|under real concurrency: %s" % (x.split(" ")[0], x)
     return "diff"
+
+
+def known_c08(prop, known):
+    """witness replay of the recorded finding (never matched against divergences)"""
+    from ..common import HARNESS, goenv
+    from .. import corr
+    out = []
+    ids = {k.get("id") for k in known if k.get("property") == prop and k.get("status") == "known"}
+    if "C08-sequential-wait-outlives-cancellation" in ids:
+        (tr,) = corr.run_binary([HARNESS, "stress"], [["seqcancel 0 0"]], 60, goenv())
+        if tr and tr[0] == "seqcancel started-after-cancel=1":
+            out.append("KNOWN-FINDING: property=C08 a synchronous Sequential handler whose publisher was waiting for the handler's mutex when the publish context was cancelled is started all the same (the context check precedes the wait)")
+    return out
